@@ -327,8 +327,8 @@ def stepMatches (s : EncSt) (fsel outDataBytes : Int) (o : EncObs) : Bool :=
     checks, the fields a later ctl can see stay inside these ranges (they are the ranges the
     invariant `CtlInv`/`DInv` of OpusProofs needs).  `none` = all hold. -/
 def obsRange (s : EncSt) (o : EncObs) : Option String :=
-  -- :1674-1676 is the only place an encode call writes a *setting*: force_channels = 1 (stereo encoder)
-  if o.forceChannels ≠ s.forceChannels ∧ ¬(o.forceChannels = 1 ∧ s.channels = 2) then some "force_channels"
+  -- an encode call never writes a user setting (force_channels was the one exception before fix 34e4f763)
+  if o.forceChannels ≠ s.forceChannels then some "force_channels"
   else if o.voiceRatio < -1 ∨ o.voiceRatio > 100 then some "voice_ratio"
   else if o.bandwidth < BW_NB ∨ o.bandwidth > BW_FB then some "bandwidth"
   else if o.mode < MODE_SILK_ONLY ∨ o.mode > MODE_CELT_ONLY then some "mode"
